@@ -35,6 +35,13 @@
 #include "libfive/render/brep/mesh.hpp"
 #include "libfive/render/brep/settings.hpp"
 #include "libfive/render/brep/progress.hpp"
+#include "libfive/render/brep/dual.hpp"
+#include "libfive/render/brep/dc/dc_worker_pool.hpp"
+#include "libfive/render/brep/dc/dc_mesher.hpp"
+#include "libfive/render/brep/simplex/simplex_worker_pool.hpp"
+#include "libfive/render/brep/simplex/simplex_mesher.hpp"
+#include "libfive/render/brep/hybrid/hybrid_worker_pool.hpp"
+#include "libfive/render/brep/hybrid/hybrid_mesher.hpp"
 #include "libfive_stdlib.h"
 #include "stdlib_impl.hpp"
 #include <stdexcept>
@@ -146,6 +153,12 @@ struct RecHandler : public ProgressHandler {
     }
     bool fut_valid() { return future.valid(); }
 };
+
+template <typename T> static void shape_str(const T* t, std::string& o) {
+    if (T::isSingleton(t)) { o += 'S'; return; }
+    if (t->isBranch()) { o += 'B'; for (auto& c : t->children) shape_str<T>(c.load(), o); }
+    else o += 'L';
+}
 
 struct Ctx {
     std::vector<Tree> handles;
@@ -1050,6 +1063,54 @@ int main(int argc, char** argv) {
                     { RecHandler h; h.start({1, 2}); h.nextPhase(10); h.tick(10); h.nextPhase(4); h.tick(1); h.finish(); }
                     out("PD done");
                 }
+            }
+            else if (c == "progress_staged") {
+                // the stages of Mesh::render one by one, with the shape of the tree in between
+                Tree tr = H(t[1]);
+                BRepSettings st;
+                int alg = std::stoi(t[2]);
+                st.alg = alg == 0 ? DUAL_CONTOURING : alg == 1 ? ISO_SIMPLEX : HYBRID;
+                st.workers = (unsigned)std::stoul(t[3]);
+                st.min_feature = of_hex32(t[4]);
+                Region<3> rg({of_hex32(t[5]), of_hex32(t[6]), of_hex32(t[7])}, {of_hex32(t[8]), of_hex32(t[9]), of_hex32(t[10])});
+                int level = rg.withResolution(st.min_feature).level;
+                std::vector<Evaluator, Eigen::aligned_allocator<Evaluator>> es;
+                es.reserve(st.workers);
+                const auto topt = tr.optimized();
+                for (unsigned i = 0; i < st.workers; ++i) es.emplace_back(Evaluator(topt));
+                RecHandler h;
+                st.progress_handler = &h;
+                h.start({1, 1, 1});
+                std::string shape; std::string after_build, after_walk, after_reset;
+                size_t tris = 0;
+                if (alg == 0) {
+                    auto root = DCWorkerPool<3>::build(es.data(), rg, st);
+                    after_build = h.phases_str();
+                    shape_str<DCTree<3>>(root.get(), shape);
+                    auto m = Dual<3>::walk<DCMesher>(root, st);
+                    after_walk = h.phases_str(); tris = m->branes.size();
+                    root.reset(st);
+                } else if (alg == 1) {
+                    auto root = SimplexWorkerPool<3>::build(es.data(), rg, st);
+                    after_build = h.phases_str();
+                    shape_str<SimplexTree<3>>(root.get(), shape);
+                    root->assignIndices(st);
+                    auto m = Dual<3>::walk_<SimplexMesher>(root, st, [&](PerThreadBRep<3>& brep, int i) { return SimplexMesher(brep, &es[i]); });
+                    after_walk = h.phases_str(); tris = m->branes.size();
+                    root.reset(st);
+                } else {
+                    auto root = HybridWorkerPool<3>::build(es.data(), rg, st);
+                    after_build = h.phases_str();
+                    shape_str<HybridTree<3>>(root.get(), shape);
+                    root->assignIndices(st);
+                    auto m = Dual<3>::walk_<HybridMesher>(root, st, [&](PerThreadBRep<3>& brep, int i) { return HybridMesher(brep, &es[i]); });
+                    after_walk = h.phases_str(); tris = m->branes.size();
+                    root.reset(st);
+                }
+                after_reset = h.phases_str();
+                h.finish();
+                out("PS level=" + std::to_string(level) + " build=" + after_build + " walk=" + after_walk + " reset=" + after_reset
+                    + " tris=" + std::to_string(tris) + " shape=" + shape);
             }
             else if (c == "ivcheck") {
                 // ivcheck h lx ly lz ux uy uz exact(0/1) : C02's statement on one expression and box
